@@ -250,11 +250,17 @@ func genCaseFor(p Profile) func(t *rapid.T) Case {
 			c.Cfg.CsCap = rapid.SampledFrom([]int{0, 1, 2, 8, 64, 64, 64}).Draw(t, "cscap")
 		}
 		c.Cfg.DnlMs = rapid.SampledFrom([]int64{100, 1000, 6000}).Draw(t, "dnl")
-		switch rapid.IntRange(0, 5).Draw(t, "region") {
+		switch rapid.IntRange(0, 7).Draw(t, "region") {
 		case 0, 1:
 			c.Cfg.Regions = []string{"/a/b"}
 		case 2:
 			c.Cfg.Regions = []string{"/b", "/c/a"}
+		case 3:
+			// nested regions, the more specific one listed first / last, and a duplicate
+			// (seeded defect C02-r4-2 dropped a broader region listed after a narrower one)
+			c.Cfg.Regions = []string{"/a/b", "/a"}
+		case 4:
+			c.Cfg.Regions = []string{"/a", "/a/b", "/a"}
 		}
 		// initial routes and strategy choices
 		initNames := []string{"/", "/a", "/a", "/a/b", "/b", "/localhost", "/localhost/a", "/a/a"}
